@@ -892,7 +892,7 @@ type dnsGen struct {
 	small bool
 	names []string // names already used in this message (suffix reuse)
 	// reach counters
-	maxNames, label63, rootNames, rawLabels, txt255, txtEmpty, bigRData int
+	maxNames, label63, rootNames, rawLabels, txt255, txtEmpty, bigRData, aimed int
 }
 
 func (g *dnsGen) label() string {
@@ -1113,6 +1113,12 @@ func genMsg(rng *rand.Rand) (*refMsg, *dnsGen, int) { return genMsgSized(rng, fa
 // genMsgSized(small=true): ordinary shape only, at most 3 records per section and no
 // maximal-length blobs — base material for the C37 mutators.
 func genMsgSized(rng *rand.Rand, small bool) (*refMsg, *dnsGen, int) {
+	return genMsgShaped(rng, small, -1)
+}
+
+// genMsgShaped: as genMsgSized with the shape (0 plain, 1 filler up to the 14-bit pointer limit,
+// 2 large) given; -1 draws it.
+func genMsgShaped(rng *rand.Rand, small bool, force int) (*refMsg, *dnsGen, int) {
 	g := &dnsGen{rng: rng, small: small}
 	m := &refMsg{}
 	m.H = refHeader{ID: uint16(rng.Uint32()), QR: rng.IntN(2) == 0, AA: rng.IntN(2) == 0, TC: rng.IntN(2) == 0, RD: rng.IntN(2) == 0,
@@ -1124,6 +1130,9 @@ func genMsgSized(rng *rand.Rand, small bool) (*refMsg, *dnsGen, int) {
 		shape = 1
 	case r < 6:
 		shape = 2
+	}
+	if force >= 0 {
+		shape = force
 	}
 	cnt := func() int {
 		if small {
@@ -1163,6 +1172,32 @@ func genMsgSized(rng *rand.Rand, small bool) (*refMsg, *dnsGen, int) {
 			l = 0
 		}
 		m.Sec[0] = append(m.Sec[0], refRR{Name: owner, Type: 99, Class: 1, TTL: rng.Uint32(), Blobs: [][]byte{g.bytes(l)}})
+		if rng.IntN(2) == 0 {
+			// Aim exactly: the record after the filler starts at an offset within two octets of
+			// 0x4000, the first offset a compression pointer cannot express, and its owner name
+			// is new and used again right away. The implementation's own Pack of the prefix tells
+			// where the filler ends (names before it may or may not have been compressed); that
+			// only steers the generator.
+			pm := &refMsg{H: m.H, Q: m.Q}
+			pm.Sec[0] = m.Sec[0]
+			pmsg := pm.message(rand.New(rand.NewPCG(1, 2)))
+			if pre, err := pmsg.Pack(); err == nil {
+				target := 0x4000 + []int{0, 0, 0, -1, 1, -2, 2}[rng.IntN(7)]
+				if nl := l + target - len(pre); nl >= 0 && nl <= 65535 {
+					m.Sec[0][0].Blobs = [][]byte{g.bytes(nl)}
+					fresh := fmt.Sprintf("zq%d.", rng.IntN(1000))
+					if sfx := g.name(); sfx != "." {
+						fresh += sfx
+					}
+					if len(fresh) <= 200 {
+						for i := 0; i < 2+rng.IntN(2); i++ {
+							m.Sec[0] = append(m.Sec[0], refRR{Name: fresh, Type: tA, Class: 1, TTL: rng.Uint32(), Blobs: [][]byte{g.bytes(4)}})
+						}
+						g.aimed++
+					}
+				}
+			}
+		}
 	}
 	for s := 0; s < 3; s++ {
 		n := cnt()
